@@ -303,7 +303,7 @@ def run_check(pid, spec, tier, seed, scratch, args, t0):
     # evidence/ describes runs against /repo itself with nothing but the registered knobs; development runs (another tree
     # through VF_REPO, scaled case counts, selected parts, survey mode, forced templates) are written elsewhere
     evdir = os.path.join(VERIF, "evidence")
-    dev = vfbuild.REPO != "/repo" or args.scale != 1.0 or args.parts or any(k in os.environ for k in ("VF_SURVEY", "VF_WIP", "VF_FORCE_STORM", "VF_FORCE_PARK", "VF_FAIL_ON", "VF_PLAN_BUDGET_MS", "VF_TQ_MS"))
+    dev = vfbuild.REPO != "/repo" or args.scale != 1.0 or args.parts or any(k in os.environ for k in ("VF_SURVEY", "VF_WIP", "VF_FORCE_STORM", "VF_FORCE_PARK", "VF_FAIL_ON", "VF_PLAN_BUDGET_MS", "VF_TQ_MS", "VF_DEV_EVIDENCE"))
     if dev:
         evdir = os.path.join(tempfile.gettempdir(), "vf_dev_evidence")
     os.makedirs(evdir, exist_ok=True)
